@@ -849,6 +849,20 @@ def main(tier, seed, replay=None):
                     nontrivial.add(t)
         else:
             failing.append((i, k, why))
+    # "matches nothing" reported by the code but not by the model, inside the judged fragment: a failing INPUT as soon as
+    # some valuation satisfies the text as written (the 48 of the first pass may all miss a long sequence)
+    big = {}
+    cand = [(n, f[0]) for n, f in enumerate(failing) if f[1] == "model" and "matches nothing" in f[2]
+            and res[f[0]].get("impossible") and res[f[0]].get("wf", True)][:30]
+    if cand and not replay:
+        r2, _, _ = run_cases([texts[i] for _, i in cand], "sat", seed + 1, 1500, exe, specs=[specs[i] for _, i in cand])
+        for x, (n, i) in enumerate(cand):
+            rr = r2.get(x) or {}
+            if rr.get("impossible") and rr.get("wf", True) and "1" in (rr.get("sem") or ""):
+                failing[n] = (i, "impl", "reported impossible but satisfiable (a satisfying valuation found among 1500)")
+                big[i] = 1500
+    # failing inputs first, correspondence failures after them
+    failing.sort(key=lambda f: (f[1] != "impl", f[0]))
     if replay:
         r = res.get(0) or {}
         print("query:", texts[0])
@@ -862,10 +876,10 @@ def main(tier, seed, replay=None):
     for (i, k, why) in failing[:3]:
         tr = trees[i]
         text = texts[i]
-        if tr is not None:
+        if tr is not None and i not in big:
             tr = minimise(tr, seed, nvals, exe, have_model, k)
             text = render(tr)
-        r1, m1, _ = run_cases([text], "rep", seed, nvals, exe, keep_vals=True, specs=[tree_spec(tr)])
+        r1, m1, _ = run_cases([text], "rep", seed + (1 if i in big else 0), big.get(i, nvals), exe, keep_vals=True, specs=[tree_spec(tr)])
         r = r1.get(0) or {}
         obj = {"property": PROP, "kind": k, "why": why, "query": text, "tree": tr, "original_query": texts[i],
                "normal_form": r.get("norm"), "impl": r.get("impl"), "spec_sem": r.get("sem"),
